@@ -201,6 +201,8 @@ impl RunCfg {
                 cfg.n_clients = ch.range(2, 4) as usize;
                 cfg.max_steps = *ch.choose(&[30u32, 60, 100, 150]);
                 cfg.persistent = true;
+                // retained replays occupy window slots too (cursor-less inflight entries)
+                cfg.retained = ch.coin(1, 3);
                 cfg.alternate_clean = ch.coin(1, 3);
                 cfg.resub = false;
                 cfg.w_unsub = ch.pick(2);
@@ -213,6 +215,7 @@ impl RunCfg {
                 }
             }
             P::C15 => {
+                cfg.mid_quiesce = ch.coin(2, 3);
                 cfg.retained = true;
                 cfg.empty_payload = ch.coin(1, 2);
                 cfg.resub = ch.coin(1, 2);
@@ -2925,6 +2928,22 @@ impl World {
         }
         if complete && self.prop == P::C15 && !self.done() {
             self.check_retained_complete();
+            // every request accepted so far has been swept at least once by
+            // now: the one-off replay of those subscriptions is over, whatever
+            // is flagged retained for them from here on is a violation
+            if !self.done() {
+                for k in self.spec.conns.iter_mut() {
+                    for s in k.session.subs.iter_mut() {
+                        if s.retained_t0.is_some() {
+                            s.retained_t0 = None;
+                            s.replay_closed = true;
+                        }
+                    }
+                }
+                for l in self.links.iter_mut() {
+                    l.ret_fw.clear();
+                }
+            }
         }
         if complete && self.prop == P::C17 && !self.done() {
             self.check_groups_complete(snap);
@@ -3115,7 +3134,10 @@ impl World {
                                 k.parked.iter().any(|(f, _)| *f == path)
                             })
                             .unwrap_or(false);
-                        if parked {
+                        if (*j as u64) < x.cursor.1 {
+                            // the group's cursor has moved past a message nobody got
+                            "shared_undelivered_at_quiescence:skipped_by_group_cursor"
+                        } else if parked {
                             "shared_undelivered_at_quiescence:member_whose_turn_it_is_is_parked"
                         } else {
                             "shared_undelivered_at_quiescence"
@@ -3456,7 +3478,7 @@ fn run_single(
         // seeded mid-run quiescence points
         let do_q = {
             let mut w = world.borrow_mut();
-            w.cfg.mid_quiesce && quiesce_points < 2 && w.ch.coin(1, 60)
+            w.cfg.mid_quiesce && quiesce_points < if prop == P::C15 { 5 } else { 2 } && w.ch.coin(1, if prop == P::C15 { 25 } else { 60 })
         };
         if do_q && !world.borrow().done() {
             quiesce_points += 1;
